@@ -31,6 +31,14 @@ def main():
         tier = rp.get('tier', tier)
         print('replaying %s (seed %s, tier %s): re-running the check that produced it' % (a.replay, rp.get('seed'), tier))
     os.environ['VERIF_TIER'] = tier
+    # watchdog: a check that hangs is an infrastructure failure (exit 2), never a silent wait
+    import signal
+
+    def _timeout(signum, frame):
+        print('INFRASTRUCTURE FAILURE (not a violation): the check exceeded its time limit')
+        os._exit(2)
+    signal.signal(signal.SIGALRM, _timeout)
+    signal.alarm(int(os.environ.get('VERIF_TIMEOUT', 1800 if tier == 'quick' else 4 * 3600)))
     ctx = common.Ctx(prop, tier)
     try:
         mod = importlib.import_module('props.' + prop.lower())
